@@ -90,7 +90,7 @@ Definition w_subst_count0 := mk FSubstitute 1 9 P0 (SList [1;1]) SNil None None 
 Definition w_subst_count_neg := mk FSubstitute 1 9 P0 (SList [1;1]) SNil None None None TDefault (CNum (-1)) false.
 (* (count #\d "d<e9>d") with a two-byte character => 2 (repaired: was an index out of range) *)
 Definition w_count_utf8 := mk FCount 0 0 P0 (SStr [0;133;0]) SNil None None None TDefault CAbsent false.
-(* (assoc 1 nil) => nil (repaired: was a type-error); (assoc 1 '((2 . 0)) :test '<) => nil *)
+(* (assoc 1 nil) => nil (repaired: was a type-error); (assoc 1 '((2 . 0)) :test '<) => (2 . 0) (repaired: was nil) *)
 Definition w_assoc_nil := mk FAssoc 1 0 P0 SNil SNil None None None TDefault CAbsent false.
 Definition w_assoc_order := mk FAssoc 1 0 P0 (SList [2]) (SList [0]) None None None (TTest TLt) CAbsent false.
 (* (search '(1 2) '(1 2 3) :from-end t) => 0 (repaired: was nil); (search '() '(1 2 3) :start2 1) => 1 (repaired: was 0) *)
@@ -140,7 +140,7 @@ Definition w_find_if_not := mk FFindIfNot 0 0 P0 (SVec [0;1;2]) SNil None None N
 
 Definition refutation_witnesses : list call :=
   [w_remove_if_not; w_find_if_not; w_test_not; w_subst_test_not; w_setdiff_test_not; w_subst_count; w_subst_count0; w_subst_count_neg;
-   w_assoc_order; w_mismatch_from_end;
+   w_mismatch_from_end;
    w_fill_end; w_fill_start;
    w_merge_tie; w_reduce_empty; w_reduce_start; w_dups_ne; w_dups_from_end].
 
@@ -148,10 +148,10 @@ Lemma all_refuted : forallb refutes refutation_witnesses = true.
 Proof. vm_compute. reflexivity. Qed.
 
 Lemma refuted_values :
-  map m_call [w_test_not; w_subst_count; w_assoc_order; w_mismatch_from_end; w_merge_tie; w_reduce_empty] =
-  [Some (RErr EType); Some (RSeq [0;1;0;1]); Some RNil; Some (RInt 2); Some (RSeq [1;-1]); Some RNil] /\
-  map s_call [w_test_not; w_subst_count; w_assoc_order; w_mismatch_from_end; w_merge_tie; w_reduce_empty] =
-  [Some (RElt 0); Some (RSeq [0;9;0;1]); Some (RSeq [2;0]); Some (RInt 3); Some (RSeq [-1;1]); Some (RElt 0)].
+  map m_call [w_test_not; w_subst_count; w_mismatch_from_end; w_merge_tie; w_reduce_empty] =
+  [Some (RErr EType); Some (RSeq [0;1;0;1]); Some (RInt 2); Some (RSeq [1;-1]); Some RNil] /\
+  map s_call [w_test_not; w_subst_count; w_mismatch_from_end; w_merge_tie; w_reduce_empty] =
+  [Some (RElt 0); Some (RSeq [0;9;0;1]); Some (RInt 3); Some (RSeq [-1;1]); Some (RElt 0)].
 Proof. vm_compute. split; reflexivity. Qed.
 
 (* ---- repaired defects: the witnesses of the findings repaired in slip (repo_fixes/C14-n.patch) are now inside
@@ -161,7 +161,7 @@ Definition repaired_witnesses : list (call * res) :=
     (w_subseq_nil, RSeq []); (w_every_nil, RTrue); (w_subsetp_nil, RTrue); (w_reduce_nil, RElt 5);
     (w_map_nil, RSeq []); (w_merge_nil, RSeq [1]); (w_search_from_end, RInt 0); (w_search_empty, RInt 1);
     (w_mismatch_start, RInt 2); (w_replace_end, RSeq [9;9;3]);
-    (w_reduce_start_init, RElt 7); (w_some_value, RElt 2) ].
+    (w_reduce_start_init, RElt 7); (w_some_value, RElt 2); (w_assoc_order, RSeq [2;0]) ].
 Definition repaired_ok (cr : call * res) : bool :=
   in_domain (fst cr) &&
   match m_call (fst cr), s_call (fst cr) with
@@ -264,8 +264,6 @@ Lemma if_not_missing_refuted : refutes w_remove_if_not = true /\ refutes w_find_
 Proof. vm_compute. repeat split; reflexivity. Qed.
 Lemma substitute_count_refuted : refutes w_subst_count = true /\ refutes w_subst_count0 = true /\ refutes w_subst_count_neg = true.
 Proof. vm_compute. repeat split; reflexivity. Qed.
-Lemma assoc_refuted : refutes w_assoc_order = true.
-Proof. vm_compute. reflexivity. Qed.
 Lemma mismatch_refuted : refutes w_mismatch_from_end = true.
 Proof. vm_compute. reflexivity. Qed.
 Lemma fill_end_refuted : refutes w_fill_end = true /\ refutes w_fill_start = true.
